@@ -644,3 +644,114 @@ pub fn quantile_markers(e: &average::Quantile) -> Result<QMarkers, String> {
     let v = serde_json::to_value(e).map_err(|e| e.to_string())?;
     serde_json::from_value(v).map_err(|e| e.to_string())
 }
+
+// ---------------------------------------------------------------------------------------
+// histograms
+
+use average::{Histogram as HistTrait, InvalidRangeError, SampleOutOfRangeError};
+
+pub trait Hist: Clone + Debug + Send + Sync + Serialize + DeserializeOwned + 'static {
+    const LEN: usize;
+    const NAME: &'static str;
+    fn from_ranges_(v: Vec<f64>) -> Result<Self, InvalidRangeError>;
+    fn with_const_width_(a: f64, b: f64) -> Self;
+    fn find_(&self, x: f64) -> Result<usize, SampleOutOfRangeError>;
+    fn add_(&mut self, x: f64) -> Result<(), SampleOutOfRangeError>;
+    fn bins_(&self) -> Vec<u64>;
+    fn ranges_(&self) -> Vec<f64>;
+    fn range_min_(&self) -> f64;
+    fn range_max_(&self) -> f64;
+    fn reset_(&mut self);
+    fn iter_(&self) -> Vec<((f64, f64), u64)>;
+    fn into_iter_(&self) -> Vec<((f64, f64), u64)>;
+    fn widths_(&self) -> Vec<f64>;
+    fn centers_(&self) -> Vec<f64>;
+    fn normalized_(&self) -> Vec<f64>;
+    fn variances_(&self) -> Vec<f64>;
+    fn variance_(&self, i: usize) -> f64;
+    fn merge_(&mut self, o: &Self);
+    fn add_assign_(&mut self, o: &Self);
+    fn mul_assign_(&mut self, k: u64);
+    fn dbg(&self) -> String {
+        format!("{:?}", self)
+    }
+}
+
+macro_rules! impl_hist {
+    ($t:ty, $len:expr, $name:expr) => {
+        impl Hist for $t {
+            const LEN: usize = $len;
+            const NAME: &'static str = $name;
+            fn from_ranges_(v: Vec<f64>) -> Result<Self, InvalidRangeError> {
+                <$t>::from_ranges(v)
+            }
+            fn with_const_width_(a: f64, b: f64) -> Self {
+                <$t>::with_const_width(a, b)
+            }
+            fn find_(&self, x: f64) -> Result<usize, SampleOutOfRangeError> {
+                self.find(x)
+            }
+            fn add_(&mut self, x: f64) -> Result<(), SampleOutOfRangeError> {
+                self.add(x)
+            }
+            fn bins_(&self) -> Vec<u64> {
+                self.bins().to_vec()
+            }
+            fn ranges_(&self) -> Vec<f64> {
+                self.ranges().to_vec()
+            }
+            fn range_min_(&self) -> f64 {
+                self.range_min()
+            }
+            fn range_max_(&self) -> f64 {
+                self.range_max()
+            }
+            fn reset_(&mut self) {
+                self.reset()
+            }
+            fn iter_(&self) -> Vec<((f64, f64), u64)> {
+                self.iter().collect()
+            }
+            fn into_iter_(&self) -> Vec<((f64, f64), u64)> {
+                self.into_iter().collect()
+            }
+            fn widths_(&self) -> Vec<f64> {
+                self.widths().collect()
+            }
+            fn centers_(&self) -> Vec<f64> {
+                self.centers().collect()
+            }
+            fn normalized_(&self) -> Vec<f64> {
+                self.normalized_bins().collect()
+            }
+            fn variances_(&self) -> Vec<f64> {
+                self.variances().collect()
+            }
+            fn variance_(&self, i: usize) -> f64 {
+                self.variance(i)
+            }
+            fn merge_(&mut self, o: &Self) {
+                Merge::merge(self, o)
+            }
+            fn add_assign_(&mut self, o: &Self) {
+                *self += o;
+            }
+            fn mul_assign_(&mut self, k: u64) {
+                *self *= k;
+            }
+        }
+    };
+}
+impl_hist!(h1::Histogram, 1, "H1");
+impl_hist!(h2::Histogram, 2, "H2");
+impl_hist!(h3::Histogram, 3, "H3");
+impl_hist!(h4::Histogram, 4, "H4");
+impl_hist!(h10::Histogram, 10, "H10");
+impl_hist!(h100::Histogram, 100, "H100");
+impl_hist!(average::Histogram10, 10, "Histogram10");
+pub type H1 = h1::Histogram;
+pub type H2 = h2::Histogram;
+pub type H3 = h3::Histogram;
+pub type H4 = h4::Histogram;
+pub type H10 = h10::Histogram;
+pub type H100 = h100::Histogram;
